@@ -130,7 +130,7 @@ fn entry_matches(e: &RAuth, r: &RAuth) -> bool {
 	host_match(&e.host, &r.host) && port_match(e.port, r.port)
 }
 
-const PATTERNS: [&str; 14] = [
+const PATTERNS: [&str; 18] = [
 	"example.com",
 	"example.com:8080",
 	"example.com:*",
@@ -145,6 +145,11 @@ const PATTERNS: [&str; 14] = [
 	"*.com:8080",
 	"EXAMPLE.com",
 	"*",
+	// WebSocket schemes and their default ports
+	"ws://example.com:80",
+	"wss://example.com:443",
+	"ws://example.com:443",
+	"wss://example.com",
 ];
 const HOSTS: [&str; 14] = [
 	"example.com",
@@ -164,7 +169,7 @@ const HOSTS: [&str; 14] = [
 ];
 const USERINFO: [&str; 6] = ["", "u@", "u:p@", "example.com@", "example.com:80@", "u:8080@"];
 const PORTS: [&str; 14] = ["", ":80", ":443", ":8080", ":0", ":65535", ":65536", ":*", ":abc", ":", ":80:80", ": 80", ":9933", ":08080"];
-const SCHEMES: [&str; 3] = ["", "http://", "https://"];
+const SCHEMES: [&str; 5] = ["", "http://", "https://", "ws://", "wss://"];
 
 #[derive(Clone, Copy, Debug, PartialEq)]
 enum UriKind {
@@ -247,7 +252,7 @@ fn judge_request(rep: &Reporter, prefix: &str, list: &[&'static str], entries: &
 
 pub fn check(rep: &Reporter) {
 	rep.set_rule(&format!(
-		"allow-lists = all lists of 1 or 2 entries (both orders; thorough: also every 3-entry combination) over {} patterns (those HostFilterLayer::new accepts) × Host header strings = {} schemes × {} hosts × {} userinfo forms × {} port forms, plus control/non-ASCII values × header multiplicity {{1, 0, 2}} × request-target {{origin form, absolute same authority, absolute other authority, absolute with explicit default port}}. plus an SRV-TCP leg: the layer as HTTP middleware of Server::start, single-entry lists × scheme-less Host values × request-target forms as raw HTTP/1.1 over loopback. Oracle: independent RFC-3986 authority split + label/port matcher written from the statement; a case is non-trivial when the layer was actually invoked (header constructible); distinct by (list, header, multiplicity, target).",
+		"allow-lists = all lists of 1 or 2 entries (both orders; thorough: also every 3-entry combination) over {} patterns (those HostFilterLayer::new accepts) × Host header strings = {} schemes × {} hosts × {} userinfo forms × {} port forms, plus control/non-ASCII values × header multiplicity {{1, 0, 2}} × request-target {{origin form, absolute same authority, absolute other authority, absolute with explicit default port}}. plus allow-lists given as SocketAddr values (IPv4 and IPv6, 1–2 entries) × 14 Host values; plus an SRV-TCP leg: the layer as HTTP middleware of Server::start, single-entry lists × scheme-less Host values × request-target forms as raw HTTP/1.1 over loopback. Oracle: independent RFC-3986 authority split + label/port matcher written from the statement; a case is non-trivial when the layer was actually invoked (header constructible); distinct by (list, header, multiplicity, target).",
 		PATTERNS.len(),
 		SCHEMES.len(),
 		HOSTS.len(),
@@ -354,6 +359,52 @@ pub fn check(rep: &Reporter) {
 			}
 		}
 	});
+
+	// ---- allow-list entries given as SocketAddr values (another constructor path than strings)
+	{
+		use std::net::SocketAddr;
+		let addrs: Vec<SocketAddr> = ["127.0.0.1:9944", "[::1]:9944", "[2001:db8::1]:9944", "[::1]:80", "0.0.0.0:80"].iter().map(|a| a.parse().unwrap()).collect();
+		let hosts = ["127.0.0.1:9944", "[::1]:9944", "[2001:db8::1]:9944", "[::1]:80", "[::1]", "0.0.0.0:80", "0.0.0.0", "evil.com:9944", "evil.com", "example.com:80", "::1", "localhost:9944", "1:9944", "[::2]:9944"];
+		let mut local = crate::report::Local::default();
+		for n in 1..=2usize {
+			for i in 0..addrs.len() {
+				for j in 0..addrs.len() {
+					if n == 1 && j != 0 {
+						continue;
+					}
+					let list: Vec<SocketAddr> = if n == 1 { vec![addrs[i]] } else { vec![addrs[i], addrs[j]] };
+					let Ok(layer) = HostFilterLayer::new(list.iter().copied()) else {
+						rep.violation("sockaddr-entry-rejected", &format!("HostFilterLayer::new({list:?}) failed"), json!({"list": format!("{list:?}")}));
+						continue;
+					};
+					let entries: Vec<Option<RAuth>> = list.iter().map(|a| ref_parse(&a.to_string())).collect();
+					for h in hosts {
+						let calls = Arc::new(AtomicUsize::new(0));
+						let c2 = calls.clone();
+						let probe = tower::service_fn(move |_r: HttpRequest<Empty<Bytes>>| {
+							c2.fetch_add(1, Ordering::SeqCst);
+							async move { Ok::<_, std::convert::Infallible>(HttpResponse::new(HttpBody::from("probe"))) }
+						});
+						let req: HttpRequest<Empty<Bytes>> = http::Request::builder().method("POST").uri("/").header(HOST, h).body(Empty::new()).unwrap();
+						let mut svc = layer.layer(probe);
+						let Some(Ok(resp)) = svc.call(req).now_or_never() else { continue };
+						let admitted = calls.load(Ordering::SeqCst) == 1;
+						let hdr = ref_parse(h);
+						let matched = hdr.as_ref().map_or(false, |a| entries.iter().flatten().any(|e| entry_matches(e, a)));
+						let case = json!({"engine":"ENUM","part":"socket-addr-entries","allow_list": format!("{list:?}"), "host_header": h, "status": resp.status().as_u16(), "admitted": admitted});
+						if admitted && !matched {
+							rep.violation("sockaddr:admitted-without-match", &format!("allow-list {list:?} (socket addresses): Host {h:?} reached the inner service although no entry matches"), case.clone());
+						}
+						if !admitted && matched && n == 1 {
+							rep.violation("sockaddr:matching-authority-rejected", &format!("allow-list {list:?} (socket addresses): Host {h:?} matches the only entry but got {}", resp.status().as_u16()), case.clone());
+						}
+						local.case_unique(if admitted { "sockaddr:admitted" } else { "sockaddr:rejected" });
+					}
+				}
+			}
+		}
+		rep.merge(local);
+	}
 
 	// ---- SRV-TCP leg: the layer in its deployed position (HTTP middleware of a real `Server`), requests written as raw
 	//      HTTP/1.1 over loopback so that hyper supplies the Host header and the request-target. Single-entry lists ×
